@@ -191,7 +191,7 @@ segmentation x caller read plan), run through send() on a scripted transport; no
         (
             gen::payload(max),
             framing_strategy(),
-            0u8..4,
+            0u8..12,
             prop_oneof![
                 2 => Just(Trailing::None),
                 2 => gen::small_payload(300).prop_map(Trailing::Garbage),
